@@ -290,7 +290,7 @@ def main():
                           "a_real_ldl_inv_", "a_real_ldl_det", "a_real_ldl_lndet", "a_real_ldl_sgndet", "a_real_llt", "a_real_llt_L", "a_real_llt_lower", "a_real_llt_lower_",
                           "a_real_llt_upper", "a_real_llt_upper_", "a_real_llt_solve", "a_real_llt_inv", "a_real_llt_inv_", "a_real_llt_det", "a_real_llt_lndet",
                           "a_real_swap", "a_real_triL", "a_real_triL1", "a_real_triU", "a_real_diag1"])
-    res.bounds = {"orders": "n = 1..%d (factor/solve), inverse and determinant up to n = %d; all matrix and right-hand-side entries symbolic reals; every pivoting pattern is a path%s" % (N, N - 1, "; orders 5 (factor/solve) and 4 (inverse/determinant) are attempted with a 600 s solver limit, undecided obligations are listed under dropped_from_claim" if deep else ""),
+    res.bounds = {"orders": "n = 1..%d (factor/solve), inverse and determinant up to n = %d; all matrix and right-hand-side entries symbolic reals; every pivoting pattern is a path%s" % (N, N - 1, "; orders 5 (factor/solve) and 4 (inverse/determinant) are attempted with a 300 s solver limit and a 1500 s budget per instance, undecided obligations are listed under dropped_from_claim" if deep else ""),
                   "failure clause": "zero column / zero row+column, two equal rows, non-positive first Cholesky pivot, for n <= 3"}
     res.outside = ["the rounding half of the statement: componentwise backward-error / residual bounds, agreement 'within rounding'", "n > %d" % N, "overflow/underflow, NaN inputs",
                    "lndet: log is an uninterpreted function (only the structure sum of log|diag| is decided)"]
@@ -301,7 +301,7 @@ def main():
               exec_attrs={"force_solver": True}, exec_opts={"solver": "nra"}, time_budget=600 if T == "quick" else 5000)
     if deep:
         e2.run_e2(res, cfg, ["linalg_plu.c", "linalg_ldl.c", "linalg_llt.c", "linalg.c", "math.c", "a.c"], deep, builder, group="lu-deep", validate_every=3, tol=1e-6,
-                  exec_attrs={"force_solver": True}, exec_opts={"solver": "nra", "timeout_ms": 600000}, time_budget=5000, droppable=True)
+                  exec_attrs={"force_solver": True}, exec_opts={"solver": "nra", "timeout_ms": 300000}, time_budget=1500, droppable=True)
     e2.finish_coverage(res, must_cover=["a_real_plu", "a_real_ldl", "a_real_llt", "a_real_plu_inv_", "a_real_ldl_inv_", "a_real_llt_inv_"],
                        report_funcs=set(f for f in res.functions))
     return res.finish()
